@@ -86,7 +86,12 @@ static void fam_thrift(int64_t iters) {
     carquet_buffer_t ph; carquet_buffer_init(&ph); { parquet_page_header_t h; memset(&h, 0, sizeof h); h.type = CARQUET_PAGE_DATA; h.uncompressed_page_size = 100; h.compressed_page_size = 90; h.has_crc = 1; h.crc = 12345; h.data_page_header.num_values = 10; h.data_page_header.has_statistics = 1; h.data_page_header.statistics.has_null_count = 1; (void)parquet_write_page_header(&h, &ph, NULL); }
     for (int64_t i = 0; i < iters; i++) { iter_begin(); size_t n; uint8_t* in; int src = (int)(i % 3); int which = (int)vrng_below(&R, 2); CUR = which ? "parse_page_header" : "parse_file_metadata";
         if (src == 0) in = mutate(which ? ph.data : fm.data, which ? ph.size : fm.size, &n); else if (src == 1) in = random_bytes(&n);
-        else { /* grammar: deep nesting of unknown structs/lists, huge counts */ n = 8 + vrng_below(&R, 3000); if (i % 3000 == 2) { n = 200000 + vrng_below(&R, 3000000); v_count("deep_nesting_inputs"); } in = v_exact(n); int g = (int)vrng_below(&R, 9); if (g >= 5) { gen_nest(in, n, g == 5 ? 8u : g == 6 ? 4u : g == 7 ? 10u : (unsigned)vrng_below(&R, 16)); v_count("mixed_container_nesting_inputs"); } else for (size_t k = 0; k < n; k++) in[k] = g == 0 ? 0x1C : g == 1 ? 0x19 : g == 2 ? 0xF9 : g == 3 ? 0x2C : (uint8_t)(0x10 | (k & 0xF)); if (g == 2 && n > 6) { in[0] = 0x19; in[1] = 0xFC; in[2] = 0xFF; in[3] = 0xFF; in[4] = 0xFF; in[5] = 0x0F; } }
+        else { /* grammar: deep nesting of unknown structs/lists, huge counts */ n = 8 + vrng_below(&R, 3000); if (i % 3000 == 2) { n = 200000 + vrng_below(&R, 3000000); v_count("deep_nesting_inputs"); } int g = (int)vrng_below(&R, 11);
+            if (g >= 9) { /* an unknown binary (or list) field whose length varint is hostile: 2^64-k (wraps every 64-bit position sum), 2^63, 2^32+-, 2^31+- ; spliced in front of the final STOP of a valid header/footer */
+                const uint8_t* sd = which ? ph.data : fm.data; size_t sn = which ? ph.size : fm.size; static const uint64_t HL[] = {0, 1, 0x7FFFFFFFULL, 0x80000000ULL, 0xFFFFFFFFULL, 0x100000000ULL, 0x7FFFFFFFFFFFFFFFULL, 0x8000000000000000ULL};
+                uint64_t len = vrng_chance(&R, 1, 2) ? (uint64_t)0 - (1 + vrng_below(&R, 64)) : HL[vrng_below(&R, 8)] + vrng_below(&R, 3) - 1; size_t fill = vrng_below(&R, 24); n = sn + 12 + fill; in = v_exact(n); size_t k = sn ? sn - 1 : 0; memcpy(in, sd, k);
+                in[k++] = g == 9 ? 0x18 : 0x19; if (g == 10) in[k++] = 0xF8; /* list: size in a varint that follows, element type binary */ while (len >= 0x80) { in[k++] = (uint8_t)(len | 0x80); len >>= 7; } in[k++] = (uint8_t)len; vrng_bytes(&R, in + k, fill); k += fill; in[k++] = 0x00; while (k < n) in[k++] = 0x00; v_count("hostile_length_varint_inputs"); }
+            else { in = v_exact(n); if (g >= 5) { gen_nest(in, n, g == 5 ? 8u : g == 6 ? 4u : g == 7 ? 10u : (unsigned)vrng_below(&R, 16)); v_count("mixed_container_nesting_inputs"); } else for (size_t k = 0; k < n; k++) in[k] = g == 0 ? 0x1C : g == 1 ? 0x19 : g == 2 ? 0xF9 : g == 3 ? 0x2C : (uint8_t)(0x10 | (k & 0xF)); if (g == 2 && n > 6) { in[0] = 0x19; in[1] = 0xFC; in[2] = 0xFF; in[3] = 0xFF; in[4] = 0xFF; in[5] = 0x0F; } } }
         v_case(v_hash(in, n, (uint64_t)which));
         carquet_error_t err = CARQUET_ERROR_INIT;
         if (which) { parquet_page_header_t h; size_t used = 0; carquet_status_t st = parquet_parse_page_header(in, n, &h, &used, &err); if (st == CARQUET_OK && used > n) over("reported-size-exceeds-input", "bytes_read=%zu input=%zu", used, n); if (st == CARQUET_OK) v_count("ok_returns"); else v_count("error_returns"); }
